@@ -152,6 +152,8 @@ def run(ctx):
                        "untouched, update_statepoint(overwrite=False) conflicts change nothing; plus scripted deepcopy / pickle scenarios; distinct = (config, op, outcome) classes")
     for c in configs(ctx):
         F.run_config(ctx, PID, c)
+    F.run_recorded(ctx, PID, "random-wide", 50 if ctx.quick else 3000, 40 if ctx.quick else 60,
+                   ["open_sp", "open_id", "open_iter", "copy", "readsp", "setkey", "assign", "update_sp", "init", "docset", "writefile", "remove", "move", "clone", "restart"])
     independent_handles(ctx)
     assignment_scenarios(ctx)
     ctx.cov["binding_selftest"] = F.selftest(ctx, PID)
